@@ -90,6 +90,9 @@ fn columns_enough(n: usize, cycle: Option<usize>) {
     let d = eval_degree - (n - e);
     vcheck!("C23.composition_columns.hold_all_coefficients", ctx.num_constraint_composition_columns() * n >= d + 1);
     vcheck!("C23.ce_domain.exceeds_composition_degree", ctx.ce_domain_size() > d);
+    // C01 (necessary condition for honest proofs to verify): the composition polynomial of an honest prover
+    // fits the columns the verifier expects
+    vcheck!("C01.composition_columns.hold_all_coefficients", ctx.num_constraint_composition_columns() * n >= d + 1);
     vcheck!("C23.composition_columns.at_least_one", ctx.num_constraint_composition_columns() >= 1);
 }
 
